@@ -41,6 +41,16 @@ CLAIMED = {
          "F1: every single-bit flip of every byte of 4 small files against the whole operation list forwards and backwards; F2: all depth-3/4 read histories on files with one damaged page; F3: all 1-bit and 2-bit flips (quick: within 64-bit windows, thorough: all 33.5 M pairs) and a menu of checksum mis-encodings through the real page reader; F4: all triples and all bursts <=32 bits decided on the syndrome table measured with the crate's CRC (affinity verified on every executed pair); F6: identical per-case observations with and without the crc32c feature.",
          "3-bit/burst clauses rely on CRC affinity verified on executed pairs; burst positions in the CRC's own bit order; known finding: bursts straddling payload end and the big-endian checksum (format property)",
          "DESIGN.md §5 C07"),
+ "C08": ("model_checking",
+         "complete enumeration of a structure-aware single-mutation menu (thorough: pairs) over a 33-file seed corpus; every read entry point per mutant under catch_unwind in worker subprocesses",
+         "For every seed (e57spec scenes incl. index/ignored packets, writer files, 14 bundled files) every item of the finite mutation menu is applied (header fields, every numeric/type XML slot, element delete/duplicate/move, prototype conspiracies, section and packet fields, payload flips, truncation/extension, unsealed flips, pathological XML documents) and validate_crc, raw_xml, new, listing, raw/simple iteration under 8/64 option vectors and blob extraction are run with overflow checks and debug assertions on; no panic, no abort.",
+         "'all byte strings' is approximated by the <=1 (thorough <=2) mutation neighbourhood of the corpus; OOM/hangs are C09's",
+         "DESIGN.md §5 C08"),
+ "C09": ("model_checking",
+         "the C08 enumeration with a counting global allocator and counting device: per-call budgets on allocated bytes, device reads, items yielded, plus a per-case watchdog and a live-byte cap",
+         "Every call (open, each next(), each blob) of every mutant is metered: bytes allocated and peak live bytes <= 4096*L + 64 MiB, device bytes requested <= 4*L + 64 KiB (validate_crc 2*L), iterators yield <= recordCount items, each case finishes within the watchdog; a worker exceeding 2 GiB live bytes exits with a distinguished status and the case is reported.",
+         "budgets are loose constants; the watchdog is a timeout, not a termination proof",
+         "DESIGN.md §5 C09"),
  "C10": ("model_checking",
          "bounded-exhaustive enumeration of prototypes, unstorable values and API call orders on the real writer under catch_unwind, judged by a reference predicate of the documented rules",
          "Every prototype of length <=2 over 25 names x 14 types, every valid base plus <=2 extra records, every single-record mutation of the catalogue prototypes, 9 kinds of unstorable value at every position of a 9-point cloud, and every sequence of <=3/4 API sessions (incl. abandoned writers, double finalize, failing XML transformer) are executed; no call may panic, listed unstorable inputs must be rejected without side effects, and whenever finalize reports success the file must read back exactly.",
@@ -76,6 +86,21 @@ CLAIMED = {
          "Every history over the read alphabet on 6 file variants, every (warm-up, faulted op, fault position, following op) combination with full and half-sized device reads, and a BFS that evaluates every operation in every reachable page-cache state (fixpoint reached); oracle: memoised result on a freshly opened reader.",
          "alphabet of ~20 ops per file; one fault per history",
          "DESIGN.md §5 C17"),
+ "C18": ("model_checking",
+         "full product of insertion positions x local names x foreign element shapes (and foreign attributes) spliced into real and independently encoded documents; real reader report vs report on the unmodified document",
+         "6 base documents x every child position of every container element outside prototypes x 88 local names (every name the reader looks up) x 4 shapes, foreign attributes before and after the standard attributes of every element, and extension attributes named like standard ones / odd accepted names at every prototype position: the reader's report about standard content (root fields, descriptors, points, blobs) must not change and extension attributes must come back with prefix and name.",
+         "inserted content is truly foreign (prefixed, namespace declared on the inserted element); known finding: accepted extension names starting with a digit or dash",
+         "DESIGN.md §5 C18"),
+ "C19": ("model_checking",
+         "bounded-exhaustive corpus (layout-deviation files, all depth-2/3 program outputs, metadata-rich files, bundled files) x differential oracle through the real reader/writer; cross-process determinism by executing a stage twice",
+         "Every corpus file that follows the writer's documented rules is copied through the public API: read(copy(F)) == read(F), copy(copy(F)) byte-identical to copy(F), repeated writes byte-identical, also between separate worker processes.",
+         "writer-computed bounds are not compared with foreign originals; partial limits are dropped by design",
+         "DESIGN.md §5 C19"),
+ "C20": ("model_checking",
+         "exhaustive value lattice and line-shape enumeration through the built tool binaries (subprocesses), page-damage enumeration for the CRC tool, byte comparison of extract/unpack output with library results",
+         "XYZ -> E57 -> XYZ for every finite f32 of the mini-float lattice + specials in three spellings and every colour value, line shapes within 2 deviations, line counts around the packet capacity; e57-check-crc exit status for every single damaged page / truncation of 17 files; e57-extract-xml and e57-unpack output vs raw_xml, xml(), raw values and blob bytes, intact and with every page damaged.",
+         "clean single-space separated tokens, finite coordinates",
+         "DESIGN.md §5 C20"),
  "C14": ("model_checking",
          "deviation-bounded exhaustive DFS (<=2 quick / <=3 thorough deviations) over attribute groups, types, value orders and limit overrides on the real writer/reader",
          "48 attribute-group subsets x 4 sequence kinds, with every combination of at most 2 (3) deviations over coordinate/index/colour/intensity types, value sets, limit overrides and all 6 orders of three distinct values per attribute; stored bounds compared numerically with an independent fold, limits with the declared type range or the override.",
